@@ -33,6 +33,14 @@ CLAIMS = {
   text="first half of the property (basic types): every function literal that Universe.addBasicTypeMethodsCTI installs for method M of basic kind K (279 literals: Equal, Cmp, Less, Add, Sub, Mul, Quo, Rem, Neg, And, AndNot, Or, Xor, Not, Lsh, Rsh, Real, Imag, Index, Len, Slice x 17 kinds) is proved to return the Go operator / builtin of that name on the same operands, evaluated in K by Go's rules (wrap-around, IEEE, shift counts), for all operand values, and to have no effect; a literal without a clause, or a clause without a literal, fails",
   note="trusted: go/ssa front end, SMT solvers, machine arithmetic as specified by Go; strings are an uninterpreted model (Index/Slice/Len compared through the same indexing function). Not covered: container methods through reflection (cti_method.go), method resolution in the compiler, signatures in go/types/cti_method.go",
   ref="DESIGN.md section 0.1, section 5 C34"),
+ "C15": dict(
+  text="thin: only the mechanism the property names for functions: a function (or macro) declaration that fails to compile - any panic, from any point after the signature was computed - leaves the name bound to exactly what it was bound to when DeclFunc was entered (the previous function, or nothing), whatever the failed compilation did in between; proved over every panic exit of Comp.DeclFunc with its deferred restore",
+  note="trusted: go/ssa front end, SMT solvers, Comp.TypeFunction declares nothing in the enclosing scope, the contract of NewBind (verified under C14). Not covered: variables, constants, types (no roll-back exists: finding F12, hand-confirmed, recorded in DESIGN.md, not derived), methods and generic functions, compile-before-run, type redefinition",
+  ref="DESIGN.md section 0.1, section 5 C15"),
+ "C19": dict(
+  text="partial: the documented stop rule, for all states: singleStep asks the debugger before a statement exactly when single-stepping is on and the call depth of the statement's frame is below the requested depth (both directions: a call-site assertion and a ghost call history), and hands the statement back untouched when single-stepping is off; applyDebugOp switches single-stepping on with the requested depth for Depth > 0 and off otherwise; the commands ask for depth: step = DebugOpStep, next = current depth + 1, finish = current depth, continue = DebugOpContinue - which is 'any depth / same or shallower / shallower / never'",
+  note="trusted: go/ssa front end, SMT solvers, the assumed contract of Stmt. Not covered: transparency (same results with and without the debugger: two executions), the command table, the initial values of the package variables DebugOpStep / DebugOpContinue, explicit breakpoints, Interp.debug",
+  ref="DESIGN.md section 0.1, section 5 C19"),
  "C22": dict(
   text="partial: lemma functions (Go code under the build tag, calling the real methods) with contracts, for each of the 53 wrapper types: unwrapping a wrapped node returns the node (ToNode(ToAst(n)) == n for every node type, by case split over the wrapper types); the empty copy made by New is a fresh node of the same type with the same token, string, boolean and channel-direction attributes and the same 'if any' positions (alias '=', call '...', declaration '(', 'func'); Size is the documented constant and Get can be called for exactly the indexes 0..Size-1 (it fails for every other index) - for all nodes, not a corpus",
   note="trusted: go/ssa front end, SMT solvers, closed world (every Ast value is one of the compiled wrapper types, generated interpreter proxies excepted), children of a node are nodes of the wrapped types and no typed nil pointers. Not covered: Set / Append and hence the round trip as a whole, what Get returns, list-like wrappers beyond New, Package (TODO in the code), positions / resolution information / comments",
